@@ -29,6 +29,7 @@ type LoadConfig struct {
 	Overlay    map[string]string `json:"overlay"` // path -> replacement file path
 	InterpPkgs []string          `json:"interp_pkgs"`
 	Env        []string          `json:"env"`
+	Solver     string            `json:"solver"` // primary solver: "z3" (default) or "cvc5-int"
 }
 
 // Request is one unit of work for a worker.
@@ -198,7 +199,7 @@ func WorkerMain(cfg LoadConfig, in io.Reader, out io.Writer) error {
 	if err != nil {
 		return err
 	}
-	proc, err := smt.StartZ3(20000)
+	proc, err := smt.StartSolver(cfg.Solver, 20000)
 	if err != nil {
 		return err
 	}
